@@ -424,17 +424,36 @@ def lazy_rule(ctx):
     for prop in ("C", "S"):
         g = base.methods[prop]
         r.instance(fn=g.qualname)
-        body = g.node.body
-        ok = False
-        for st in body:
-            if isinstance(st, ast.If) and "needUpdate" in norm_text(st.test):
-                t = [norm_text(x) for x in st.body]
-                if any("_Update()" in x for x in t) and any("Need_Update(False)" in x for x in t) and t.index(next(x for x in t if "_Update()" in x)) < t.index(next(x for x in t if "Need_Update(False)" in x)):
-                    ok = True
+        # interpreted on a recorder law (the `if self.needUpdate:` shape used to be matched; it fired when the block moved into
+        # a helper, refactored/C14-R8): dirty -> _Update once, then the flag is lowered; clean -> no update; dirty again -> update
+        from ..xeval import Interp as _Ig, XObj as _Xg, XRaise as _XRg
+
+        ups = []
+        og = _Xg(base, {})
+        from ..xarray import XArray as _XAg
+
+        og.attrs["_Update"] = lambda _o=og, _u=ups: (_u.append(1), _o.attrs.__setitem__(base.mangle("__C"), _XAg((1,), [100 + len(_u)])), _o.attrs.__setitem__(base.mangle("__S"), _XAg((1,), [200 + len(_u)])))[0]
+        Ig = _Ig(repo)
+        try:
+            Ig.call_function(repo.lookup_method(base, "Need_Update"), [], self_obj=og)
+            v1 = Ig.call_function(g, [], self_obj=og)
+            n1 = len(ups)
+            v2 = Ig.call_function(g, [], self_obj=og)
+            n2 = len(ups)
+            Ig.call_function(repo.lookup_method(base, "Need_Update"), [], self_obj=og)
+            v3 = Ig.call_function(g, [], self_obj=og)
+            n3 = len(ups)
+            b0 = 100 if prop == "C" else 200
+            val = lambda v: int(v.data[0]) if isinstance(v, _XAg) else v
+            v1, v2, v3 = val(v1), val(v2), val(v3)
+            ok = (n1, n2, n3) == (1, 1, 2) and (v1, v2, v3) == (b0 + 1, b0 + 1, b0 + 2)
+            why = f"updates counted after the three reads: {(n1, n2, n3)}, values read {v1!r}, {v2!r}, {v3!r}"
+        except _XRg as e:
+            ok, why = False, f"raises {e}"
         if ok:
-            r.ok(f"_Elastic.{prop}: if needUpdate: _Update(); Need_Update(False)")
+            r.ok(f"_Elastic.{prop}: update when dirty, then clear the flag")
         else:
-            r.fail(g.qualname, "getter", g.file, g.lineno, f"_Elastic.{prop}", "the getter does not (update when dirty, then clear the flag)")
+            r.fail(g.qualname, "getter", g.file, g.lineno, f"_Elastic.{prop}", f"the getter does not (update when dirty, then clear the flag): {why}")
         s = base.setters[prop]
         r.instance(fn=s.qualname)
         if any(isinstance(n, ast.Assign) and f"sqrt_{prop}" in norm_text(n.targets[0]) and norm_text(n.value) == "None" for n in ast.walk(s.node)):
